@@ -17,12 +17,12 @@ use std::io::Write;
 // run
 // ------------------------------------------------------------------------------------------
 
-fn cls<T>(o: Option<T>) -> String {
+pub fn cls<T>(o: Option<T>) -> String {
     if o.is_some() { "some".into() } else { "none".into() }
 }
 
 /// run one asset entry point on bytes under the panic guard and the allocation meter
-fn asset<F: FnOnce(&[u8]) -> String + std::panic::UnwindSafe>(hexs: &str, f: F) -> String {
+pub fn asset<F: FnOnce(&[u8]) -> String + std::panic::UnwindSafe>(hexs: &str, f: F) -> String {
     let Some(b) = unhex(hexs) else { return "bad-case".into() };
     let len = b.len();
     alloc::measured(len, move || guarded(move || f(&b)))
@@ -47,7 +47,22 @@ pub fn run(case: &str, input: &str) -> String {
         ("sqdb", 2) => asset(f[1], |b| cls(physis::sqpack::SqPackDatabase::from_existing(b))),
         ("exh", 2) => asset(f[1], |b| cls(physis::exh::EXH::from_existing(b))),
         ("exd", 2) => asset(f[1], |b| cls(physis::exd::EXD::from_existing(b))),
-        _ => "bad-case".into(),
+        _ => {
+            // the other parts of C18 live in their own modules
+            for part in [
+                crate::c18_fmt::run as fn(&[&str]) -> Option<String>,
+                crate::c18_arc::run,
+                crate::c18_mat::run,
+                crate::c18_skel::run,
+                crate::c18_mdl::run,
+                crate::c18_pbc::run,
+            ] {
+                if let Some(a) = part(&f) {
+                    return a;
+                }
+            }
+            "bad-case".into()
+        }
     }
 }
 
@@ -273,7 +288,7 @@ pub fn header_seeds(rng: &mut Rng) -> Vec<Seed> {
 // mutation
 // ------------------------------------------------------------------------------------------
 
-fn emit(out: &mut dyn Write, op: &str, bytes: &[u8], extra: &str) {
+pub fn emit(out: &mut dyn Write, op: &str, bytes: &[u8], extra: &str) {
     if extra.is_empty() {
         writeln!(out, "{} {}", op, hex(bytes)).unwrap();
     } else {
@@ -281,7 +296,7 @@ fn emit(out: &mut dyn Write, op: &str, bytes: &[u8], extra: &str) {
     }
 }
 
-fn put(bytes: &mut [u8], f: &Field, v: u64) {
+pub fn put(bytes: &mut [u8], f: &Field, v: u64) {
     for i in 0..f.width {
         let sh = if f.be { 8 * (f.width - 1 - i) } else { 8 * i };
         if f.off + i < bytes.len() {
@@ -290,7 +305,7 @@ fn put(bytes: &mut [u8], f: &Field, v: u64) {
     }
 }
 
-fn get(bytes: &[u8], f: &Field) -> u64 {
+pub fn get(bytes: &[u8], f: &Field) -> u64 {
     let mut v = 0u64;
     for i in 0..f.width {
         let sh = if f.be { 8 * (f.width - 1 - i) } else { 8 * i };
@@ -302,7 +317,7 @@ fn get(bytes: &[u8], f: &Field) -> u64 {
 }
 
 /// the single-field corruption values of the property's quantifier
-fn corrupt_values(cur: u64, width: usize) -> Vec<u64> {
+pub fn corrupt_values(cur: u64, width: usize) -> Vec<u64> {
     let bits = 8 * width as u32;
     let mask = if bits >= 64 { u64::MAX } else { (1u64 << bits) - 1 };
     let mut v = vec![
@@ -446,6 +461,12 @@ pub fn generate(thorough: bool, seed: u64, out: &mut dyn Write) {
     for (op, magic) in HEADER_OPS {
         blobs(op, magic, &mut rng, if thorough { 400 } else { 30 }, *op == "exd" || *op == "sqdb" || thorough, out);
     }
+    crate::c18_fmt::generate(thorough, seed, out);
+    crate::c18_arc::generate(thorough, seed, out);
+    crate::c18_mat::generate(thorough, seed, out);
+    crate::c18_skel::generate(thorough, seed, out);
+    crate::c18_mdl::generate(thorough, seed, out);
+    crate::c18_pbc::generate(thorough, seed, out);
 }
 
 pub fn dump(out: &mut dyn Write) {}
